@@ -13,7 +13,7 @@ def swarm(rng, faults):
     cfg = c02.swarm(rng)
     cfg.update({"n_spaces": rng.choice([2, 3, 4]), "n_cells": rng.choice([2, 3]), "n_refs": rng.choice([1, 2, 3]),
                 "n_hist": rng.choice([0, 5, 12]), "p_objref": rng.choice([0.0, 0.2, 0.35]), "p_sformula": rng.choice([0.0, 0.3]),
-                "p_uncached": rng.choice([0.0, 0.3]), "recalc": False, "n_saves": rng.choice([2, 3, 4, 5]),
+                "p_uncached": rng.choice([0.0, 0.3]), "recalc": False, "n_saves": rng.choice([2, 3, 4, 5, 6, 7]),
                 "zip_first": rng.random() < 0.5, "mix": rng.random() < 0.3, "faults": faults,
                 # known findings excluded from the corpus: the mode of literal-valued references and the inputs of
                 # derived cells are not written (see known_findings.json); witnesses replay them
@@ -115,6 +115,7 @@ class Session:
         finally:
             self.nmut_last = self.shim.nmut
             self.fired_last = list(self.shim.fired)
+            self.save_fired = list(self.shim.fired)
             self.shim.window(None)
             self.shim.uninstall()
             if self.fired_last:
@@ -309,8 +310,9 @@ def run_c14(ctx):
         is_zip = cfg["zip_first"]
         nm_guess = 160 if is_zip else 20
         if cfg["enumerate"]:
-            plan_steps.append({"op": "save", "zip": is_zip, "plan": None})
-            plan_steps.append({"op": "edit"})
+            for _ in range(rng.choice([1, 1, 2, 4])):
+                plan_steps.append({"op": "save", "zip": is_zip, "plan": None})
+                plan_steps.append({"op": "edit"})
             nk = 2 if (ctx.tier == "thorough" or not is_zip) else 1
             plan_steps.append({"op": "enum", "zip": is_zip, "kinds": [list(k) for k in rng.sample(KINDS, nk)]})
         else:
@@ -375,6 +377,15 @@ def run_c14_steps(ctx, ses, plan_steps):
                 raise Violation("C14/last-good-save-not-at-path-or-first-backup/%s/%s" % (what, "found-at-BAK%d" % where[0] if where else "lost"),
                                 {"latest_complete_generation": g, "copies": [c[:2] if c else None for c in copies]})
         gens = [c[1] for c in copies if c and c[0] == "gen"]
+        slots = [(c[1] if c and c[0] == "gen" else (None if c is None else "unloadable")) for c in copies]
+        if failed and state.get("slots_before") is not None and slots != state["slots_before"]:
+            # a failed save leaves no residue: the same generations in the same slots as before the attempt
+            raise Violation("C14/failed-save-changed-the-kept-generations/" + what, {"before": state["slots_before"], "after": slots})
+        stray = sorted(n for n in os.listdir(ses.dir) if n.startswith("model") and n not in ("model", "model_BAK1", "model_BAK2", "model_BAK3"))
+        if stray and not (stray == ["model_BAK_OLD"] and any(f[1] in ("unlink", "rmdir") for f in getattr(ses, "save_fired", []))):
+            # (a fault that hits the removal of the set-aside oldest copy legitimately leaves it until the next save)
+            raise Violation("C14/stray-files-next-to-the-model/" + what, {"stray": stray})
+        state["slots_now"] = slots
         if gens != sorted(gens, reverse=True):
             raise Violation("C14/backup-generations-out-of-order/" + what, {"generations": gens})
         if not failed:
@@ -404,6 +415,7 @@ def run_c14_steps(ctx, ses, plan_steps):
             mark(m)
             d = desc_of(m)
             models0 = sorted(mx.get_models())
+            state["slots_before"] = state.get("slots_now")
             err = ses.save(m, state["path"], is_zip, plan=st.get("plan"))
             fired = ses.fired_last
             for f in fired:
@@ -537,6 +549,7 @@ def enumerate_save(ctx, ses, state, st, mark, check_after):
     shutil.copytree(ses.dir, snap)
     good0 = list(state["good"])
     gen0 = state["gen"]
+    slots0 = state.get("slots_now")
     # fault-free pass to learn the number of mutating calls
     mark(m)
     err = ses.save(m, state["path"], is_zip)
@@ -551,6 +564,7 @@ def enumerate_save(ctx, ses, state, st, mark, check_after):
                 shutil.copytree(snap, ses.dir)
                 state["good"] = list(good0)
                 state["gen"] = gen0
+                state["slots_before"] = slots0
                 mark(m)
                 d = desc_of(m)
                 plan = {"at": k, "kind": kind, "errno": en}
